@@ -29,7 +29,7 @@ BINS = []
 NEEDS_CICADA = True
 ALLOWED_AXIOMS = []
 PINNED = ["C07_prompt_owner", "C07_owner_cases", "C07_bg_never_owner", "C07_groups_fixed", "C07_full", "C07_full_holds",
-          "C07_simulation", "C07_table_is_C06", "C07_wait_exact", "C07_jobs_exact", "C07_lift_nonvacuous",
+          "C07_mask_initial", "C07_give_terminal_mask", "C07_regress_failed_handover", "C07_simulation", "C07_table_is_C06", "C07_wait_exact", "C07_jobs_exact", "C07_lift_nonvacuous",
           "C07_regress_stage_outside_group", "C07_regress_count_waited", "C07_regress_stop_cont_parked",
           "C07_regress_exit_among_stopped", "C07_regress_partial_continue", "C07_nonvacuous"]
 TRUSTED = ["Coq 8.16.1 kernel, extraction to OCaml, ocamlfind ocamlopt",
@@ -39,7 +39,8 @@ TRUSTED = ["Coq 8.16.1 kernel, extraction to OCaml, ocamlfind ocamlopt",
            "setpgid/tcsetpgrp success) are ASSUMPTIONS of the model, sampled by the sessions, not proved",
            "helpers/jc.c, helpers/hp.c, the pty driver in drive/c07.py (prompt detection, /proc/<pid>/stat, tcgetpgrp)"]
 ASSUMES = ["interactive shell on a Linux pty, CICADA_ENABLE_SIG_HANDLER unset (status changes are collected by the polls)",
-           "one pipeline per typed line, no capture, no functions; nothing is typed while the shell waits except Ctrl-Z / Ctrl-C",
+           "a typed line is a list of pipelines / fg / bg / jobs / builtins separated by ';' (no && / ||), no capture, no "
+           "functions; nothing is typed while the shell waits except Ctrl-Z / Ctrl-C",
            "pids of one session are pairwise distinct; at most one pending fatal signal per stopped process",
            "lineread's own terminal handling, real signal delivery latency and the races between setpgid / tcsetpgrp / waitpid "
            "are sampled, not modelled (since /repo b465168 a launch has no schedule oracle in the model)"]
@@ -80,10 +81,11 @@ def parse_state(line):
         k, _, v = f.partition("=")
         d[k] = v
     st = {"raw": line, "prompt": d["m"] == "P", "mode": d["m"], "owner": int(d["o"]), "procs": {}, "order": [], "jobs": [],
-          "outs": [x for x in d["out"].split(";") if x]}
+          "outs": [x for x in d["out"].split(";") if x], "mask": int(d.get("k", "0")), "blk": {}}
     for p in [x for x in d["p"].split(",") if x]:
-        pid, pg, s = p.split("/")
+        pid, pg, s, b = p.split("/")
         st["procs"][int(pid)] = (int(pg), s)
+        st["blk"][int(pid)] = 1 if b == "b" else 0
         st["order"].append(int(pid))
     for j in [x for x in d["t"].split(";") if x]:
         i, g, pids, stopped, s, bg = j.split(":")
@@ -241,6 +243,21 @@ def proc_stat(pid):
     return ({"T": "T", "t": "T", "Z": "Z", "X": "G"}.get(c, "R"), int(f[2]))
 
 
+MASKBITS = (1 << 16) | (1 << 19) | (1 << 20) | (1 << 21)     # SIGCHLD 17, SIGTSTP 20, SIGTTIN 21, SIGTTOU 22
+
+
+def sig_blocked(pid):
+    """0: none of SIGCHLD/SIGTSTP/SIGTTIN/SIGTTOU blocked, 1: all four, else the hex SigBlk; None: no such process"""
+    try:
+        for l in open("/proc/%d/status" % pid):
+            if l.startswith("SigBlk:"):
+                v = int(l.split()[1], 16) & MASKBITS
+                return 0 if v == 0 else 1 if v == MASKBITS else "0x%x" % v
+    except OSError:
+        pass
+    return None
+
+
 JOBLINE = re.compile(r"^\[(\d+)\] (\d+)  (.+?)   (.*)$")
 BGLAUNCH = re.compile(r"^\[(\d+)\] (\d+)$")
 BGCMD = re.compile(r"^\[(\d+)\]  (.*) &$")
@@ -292,6 +309,7 @@ class Session:
         self.cmd_of_gid = {}    # model gid -> command text of the whole pipeline
         self.leader = {}        # model pid -> model pid of stage 0 of its launch
         self.resumed = None     # the job an fg / bg just named (oracle O7)
+        self.pending_fg = None  # `cmd ; fg n`: the job the line will wait for after cmd
         self.fg_gid = None      # the job the shell should be waiting for (driver's own bookkeeping, for the oracle)
         self.nextpid = 101
         self.serial = 0
@@ -333,15 +351,23 @@ class Session:
 
     def observe(self):
         self.sh.pump(0)
-        ob = {"prompts": self.sh.prompts(), "owner": self.mpid_of(self.sh.owner()), "procs": {}}
+        ob = {"prompts": self.sh.prompts(), "owner": self.mpid_of(self.sh.owner()), "procs": {},
+              "mask": sig_blocked(self.sh.pid), "blk": {}}
         for mp, rp in self.m2r.items():
             s, pg = proc_stat(rp)
             ob["procs"][mp] = (self.mpid_of(pg) if pg is not None else None, s)
+            if s in ("R", "T"):
+                b = sig_blocked(rp)
+                if b is not None:
+                    ob["blk"][mp] = b
         return ob
 
     def agrees(self, ob, st):
-        if ob["prompts"] != self.exp_prompts or ob["owner"] != st["owner"]:
+        if ob["prompts"] != self.exp_prompts or ob["owner"] != st["owner"] or ob["mask"] != st["mask"]:
             return False
+        for mp, b in ob["blk"].items():
+            if st["blk"].get(mp, b) != b:
+                return False
         for mp, (pg, s) in st["procs"].items():
             if mp not in ob["procs"]:
                 continue                # a process without trace record (command not found)
@@ -367,6 +393,16 @@ class Session:
     # ---- oracle on the observation alone
     def oracle(self, ob, at_prompt, items, action):
         bad = []
+        if ob["mask"] not in (0, None):
+            bad.append("O8: the shell has SIGCHLD/SIGTSTP/SIGTTIN/SIGTTOU blocked (%s)%s" %
+                       ("all four" if ob["mask"] == 1 else ob["mask"], " at the prompt" if at_prompt else ""))
+        for mp, b in sorted(ob["blk"].items()):
+            if b != 0:
+                bad.append("O8: process %d runs with SIGCHLD/SIGTSTP/SIGTTIN/SIGTTOU blocked (%s): inherited from the shell" %
+                           (mp, "all four" if b == 1 else b))
+        if self.fg_gid is not None and self.pending_fg is not None:
+            if not [mp for mp in ob["procs"] if self.leader[mp] == self.fg_gid and ob["procs"][mp][1] == "R"]:
+                self.fg_gid, self.pending_fg = self.pending_fg, None     # the line went on to its fg
         if at_prompt and ob["owner"] != 1:
             bad.append("O1: prompt shown while the terminal belongs to %s" % ob["owner"])
         for mp, (pg, s) in ob["procs"].items():
@@ -424,8 +460,10 @@ class Session:
         bad = self.oracle(ob, shown, items, action)
         if shown:
             self.fg_gid = None
+            self.pending_fg = None
         self.steps.append({"do": label, "model": st["raw"], "observed": {"prompts": ob["prompts"], "owner": ob["owner"],
-                           "procs": {str(k): v for k, v in sorted(ob["procs"].items())}, "printed": [list(x) for x in got]}})
+                           "procs": {str(k): v for k, v in sorted(ob["procs"].items())}, "printed": [list(x) for x in got],
+                           "shell_mask": ob["mask"], "blocked": {str(k): v for k, v in sorted(ob["blk"].items()) if v}}})
         if bad:
             self.oracle_fail.append({"step": len(self.steps), "do": label, "fails": bad})
         if not ok and self.mismatch is None:
@@ -439,8 +477,9 @@ class Session:
         self.sh.send(line.encode() + b"\r")
         self.typed.append(line)
 
-    def launch(self, stages, bg):
-        """stages: list of ('jc', code) | ('hp', code) | ('nf',)"""
+    def launch(self, stages, bg, tail=None):
+        """stages: list of ('jc', code) | ('hp', code) | ('nf',); tail: (typed text, model command, gid the tail will
+        wait for or None): a second command on the same line, `stages ; tail`"""
         words, tags = [], []
         for s in stages:
             self.serial += 1
@@ -453,7 +492,7 @@ class Session:
             else:
                 words.append("nosuchcmd_c07 %s" % tag)
         cmd = " | ".join(words)
-        line = cmd + (" &" if bg else "")
+        line = cmd + (" &" if bg else "") + ("; " + tail[0] if tail else "")
         self.begin()
         self.type_line(line)
         stolen = self.sh.sample_owners(self.exp_prompts + 1, 3.0) if bg else set()
@@ -491,7 +530,11 @@ class Session:
         self.cmd_of_gid[mpids[0]] = cmd
         if not bg:
             self.fg_gid = mpids[0]
-        st = self.feed("L:%d:%s" % (1 if bg else 0, ",".join(map(str, mpids))))
+        if tail:
+            self.pending_fg = tail[2]
+            st = self.feed("N:L/%d/%s;%s" % (1 if bg else 0, ",".join(map(str, mpids)), tail[1]))
+        else:
+            st = self.feed("L:%d:%s" % (1 if bg else 0, ",".join(map(str, mpids))))
         for s, mp in zip(stages, mpids):
             if s[0] == "hp":
                 st = self.feed("X:%d:%d" % (mp, s[1]))
@@ -592,6 +635,8 @@ class Session:
             if njobs < 3 and nlive < 7:
                 opts += ["launch_fg"] * 4 + ["launch_bg"] * 4
             opts += ["jobs"] * 2 + ["empty", "builtin", "notfound", "fg", "bg", "fg", "bg"]
+            if njobs < 3 and nlive < 7:
+                opts += ["line2"] * 3
             if nlive:
                 opts += ["sigjob"] * 3 + ["exitproc"] * 2 + ["sigone"] * 3
             c = rng.choice(opts)
@@ -604,6 +649,21 @@ class Session:
                     else:
                         stages.append(("jc", rng.randrange(0, 4)))
                 return self.launch(stages, c == "launch_bg")
+            if c == "line2":
+                # `pipeline ; fg n | bg n | jobs` on one line: no poll between the two commands
+                stages = [("jc", rng.randrange(0, 4)) for _ in range(rng.choice([1, 1, 2]))]
+                ids = [j["id"] for j in st["jobs"]]
+                t = rng.choice(["fg", "fg", "bg", "jobs"])
+                if t == "jobs":
+                    tail = ("jobs", "J", None)
+                else:
+                    n = rng.choice(ids) if ids and rng.random() < 0.85 else 9
+                    tgt = None
+                    for j in st["jobs"]:
+                        if j["id"] == n:
+                            tgt = j["gid"]
+                    tail = ("%s %d" % (t, n), "%s/%d/0" % ("F" if t == "fg" else "G", n), tgt if t == "fg" else None)
+                return self.launch(stages, False, tail)
             if c == "jobs":
                 return self.simple("jobs", "J")
             if c == "empty":
@@ -773,6 +833,30 @@ class Session:
             for mp in self.live(self.st):
                 ok = self.sig(mp, 9) and ok
             ok = self.simple("", "E") and ok
+        elif name in ("fg_gone", "bg_gone", "fg_live_tail"):
+            # `short &`, then `cmd ; fg 1` where the background job ends while cmd is waited for: the wait reaps it, the
+            # table still lists it, fg's tcsetpgrp to the vanished group FAILS; then a foreground job + Ctrl-Z
+            ok = self.launch([("jc", 0)], True)
+            a = self.nextpid - 1
+            tail = {"fg_gone": ("fg 1", "F/1/0", None), "bg_gone": ("bg 1", "G/1/0", None),
+                    "fg_live_tail": ("fg 1", "F/1/0", a)}[name]
+            ok = self.launch([("jc", 0)], False, tail) and ok
+            b = self.nextpid - 1
+            if name != "fg_live_tail":
+                ok = self.ask_exit(a, 0) and ok
+            ok = self.ask_exit(b, 0) and ok
+            if not self.st["prompt"]:          # fg_live_tail: the line now waits for job 1
+                ok = self.key("Z") and ok
+                ok = self.simple("jobs", "J") and ok
+                ok = self.sig(a, 9) and ok
+                ok = self.simple("", "E") and ok
+            ok = self.launch([("jc", 0)], False) and ok
+            c = self.nextpid - 1
+            if not self.st["prompt"]:
+                ok = self.key("Z") and ok
+            ok = self.simple("jobs", "J") and ok
+            ok = self.sig(c, 9) and ok
+            ok = self.simple("", "E") and ok
         elif name == "fg_multi":
             # no known class: a stopped two-process background job is brought to the foreground and ends member by member
             ok = self.launch([("jc", 0), ("jc", 0)], True)
@@ -901,12 +985,12 @@ class Session:
         self.kind, self.codes = {}, {}
         orig_launch = self.launch
 
-        def launch(stages, bg):      # remember what each process is
+        def launch(stages, bg, tail=None):      # remember what each process is
             first = self.nextpid
             for i, s in enumerate(stages):
                 self.kind[first + i] = s[0]
                 self.codes[first + i] = s[1] if len(s) > 1 else 0
-            return orig_launch(stages, bg)
+            return orig_launch(stages, bg, tail)
         self.launch = launch
         try:
             self.sh = Shell(self.env["cicada"], self.env["helpers"], root)
@@ -938,8 +1022,9 @@ class Session:
     def result(self):
         return {"plan": self.plan, "acts": self.acts, "typed": self.typed, "nsteps": len(self.steps), "mismatch": self.mismatch,
                 "oracle_fail": self.oracle_fail, "classes": sorted(self.classes), "infra": self.infra,
-                "last_steps": self.steps[-4:], "launches": sum(1 for a in self.acts if a.startswith("L:")),
+                "last_steps": self.steps[-4:], "launches": sum(1 for a in self.acts if a.startswith("L:") or a.startswith("N:L")),
                 "multi": sum(1 for a in self.acts if a.startswith("L:") and "," in a.split(":")[2]),
+                "lines2": sum(1 for a in self.acts if a.startswith("N:")),
                 "stray": 1 if "stage_outside_group" in self.classes else 0,
                 "states": [s["model"].split(" maps=")[0] for s in self.steps]}
 
@@ -993,7 +1078,8 @@ def run(ctx, res):
         plans.append({"kind": "random", "n": ctx.rng.randrange(5, 26), "seed": ctx.rng.randrange(1 << 30)})
     for r in range(reps):
         for name in ["count_waited", "stop_cont_parked", "exit_among_stopped", "partial_continue", "fg_multi", "ctrlz_bg_fg",
-                     "many_pipes", "many_pipes"]:
+                     "many_pipes", "many_pipes",
+                     "fg_gone", "bg_gone", "fg_live_tail"]:
             plans.append({"kind": "scripted", "name": name, "seed": ctx.rng.randrange(1 << 30)})
     ntr = 100 if ctx.thorough else 30
     for i in range(ntr // 10):
@@ -1045,7 +1131,8 @@ def run(ctx, res):
         for s in r["states"]:
             f = s.split(" ")
             if r["plan"]["kind"] != "ctrlc":
-                res.nontrivial((f[0].split(":")[0] + f[0][-3:], len(f[2].split(",")), f[3].count(";"), f[4][:12]))
+                d = dict(x.partition("=")[::2] for x in f)
+                res.nontrivial((d["m"].split(":")[0] + d["m"][-3:], len(d["p"].split(",")), d["t"].count(";"), d["out"][:12]))
         if r["infra"]:
             infra += 1
             continue
